@@ -153,9 +153,11 @@ def main():
     meta["verif_commit"] = sh(["git", "-C", VERIF, "rev-parse", "--short", "HEAD"]).stdout.decode().strip() + "+worktree"
     meta["checks"] = results
     meta["caught_by"] = [c for c, r in results.items() if r["exit"] == 1]
-    for k in ("needs", "idea"):
+    for k in ("needs", "idea", "note", "confirmed_on_base"):
         if k in old:
             meta[k] = old[k]
+    if meta.get("confirmed_on_base"):
+        meta["confirmed"] = True
     json.dump(meta, open(mp, "w"), indent=1)
     return 0
 
